@@ -13,7 +13,7 @@ Printer (what `str(x)` writes), as a symbol + chain of attribute / method applic
 Evaluator (what Python's `eval` of that text computes in the namespace of
 `musiclang.library`), as the attribute / method protocol of the objects:
   note.py        : copy (Note / Silence / Continuation), __getattr__ (rhythmic suffix *multiplies*;
-                   then the note properties), o, oabs, augment, add_tags, the ornament properties,
+                   then the note properties), o, oabs, augment, add_tags, set_amp (integer), the ornament properties,
                    __add__ (melody), to_melody, convert_to_drum_note
   note_properties.py : dynamics, modes, accidentals
   element.py     : b, s, the nine modes, __getitem__, __mod__, __call__
@@ -25,7 +25,9 @@ and the tabular form:
   sequence.py    : score_to_sequence / sequence_to_score (row encoding; pandas' sort and groupby
                    are parameters of the model, see `fromRows`)
 
-Function for function, in the code's shape, defects included.  Python's parsing of the text into
+Function for function, in the code's shape, on the repaired tree (fix commits bbbdf5d pattern-note
+octave, 0a31493 drum dynamics, e90a01c mode / accidental of drum and pattern notes + `.set_amp(0)`,
+14f203b figure '5', 6fc8934 split in front of custom chords).  Python's parsing of the text into
 the attribute chain is *not* modelled (trusted; tied by the correspondence streams `print` / `ops`).
 
 Modelling notes
@@ -59,6 +61,7 @@ inductive Op where
   | oabs (k : Int)                -- `.oabs(k)`
   | augment (a b : Int)           -- `.augment(frac(a, b))`
   | addTags (ts : List String)    -- `.add_tags({'t1', 't2'})`
+  | setAmp (k : Int)              -- `.set_amp(k)` with an integer literal
   deriving DecidableEq, Repr, Inhabited
 
 /-- a printed note: library symbol and chain -/
@@ -140,21 +143,28 @@ def drumOctOps (n : Note) : List Op :=
   if n.kind = .d ∧ n.oct ≠ 0 then [.oabs n.oct] else []
 
 def octOps (n : Note) : List Op :=
-  if n.oct ≠ 0 ∧ n.kind.isNote then [if !n.kind.isRelative then .o n.oct else .oabs n.oct] else []
+  if n.oct ≠ 0 ∧ (n.kind.isNote = true ∨ n.kind = .x) then [if !n.kind.isRelative then .o n.oct else .oabs n.oct] else []
+
+/-- every kind but rests and continuations (`type not in ('r', 'l')`) -/
+def printed (k : Kind) : Prop := k ≠ .r ∧ k ≠ .l
+
+instance (k : Kind) : Decidable (printed k) := by unfold printed; exact inferInstance
 
 def modeOps (n : Note) : List Op :=
   match n.mode with
-  | some md => if n.kind.isNote then [.attr md.toStr] else []
+  | some md => if printed n.kind then [.attr md.toStr] else []
   | none => []
 
 def accOps (n : Note) : List Op :=
   match n.acc with
-  | some a => if n.kind.isNote then [.attr a.toStr] else []
+  | some a => if printed n.kind then [.attr a.toStr] else []
   | none => []
 
+/-- the dynamics: the figure `n` (amplitude ≤ 0) is written `.set_amp(0)` — `.n` is the rhythmic suffix -/
 def ampOps (n : Note) : List Op :=
-  if n.kind.isNote ∨ n.kind = .x then
-    (if Eq.ampFigure n.amp ≠ "mf" then [.attr (Eq.ampFigure n.amp)] else [])
+  if n.kind.isNote = true ∨ n.kind = .x ∨ n.kind = .d then
+    (if Eq.ampFigure n.amp = "n" then [.setAmp 0]
+     else if Eq.ampFigure n.amp ≠ "mf" then [.attr (Eq.ampFigure n.amp)] else [])
   else []
 
 def tagOps (n : Note) : List Op :=
@@ -177,6 +187,7 @@ def Op.text : Op → String
   | .oabs k => ".oabs(" ++ toString k ++ ")"
   | .augment a b => ".augment(frac(" ++ toString a ++ ", " ++ toString b ++ "))"
   | .addTags ts => ".add_tags(" ++ Eq.tagsRepr ts ++ ")"
+  | .setAmp k => ".set_amp(" ++ toString k ++ ")"
 
 def opsText : List Op → String
   | [] => ""
@@ -252,10 +263,10 @@ def chordOct (k : Int) : Option Int := if k ≠ 0 then some k else none
 
 def partCodes (parts : List (String × Melody)) : PartCodes := parts.map (fun p => (p.1, melodyCodes p.2))
 
-/-- `Chord.extension_to_str`: the stored (normalised) extension, nothing for `''` and `'5'` -/
+/-- `Chord.extension_to_str`: the stored (normalised) extension, nothing for `''` -/
 def extCodeOf (c : Chord) : Option Ext :=
   let e := c.ext.normalize
-  if e.toText == "5" || e.toText == "" then none else some e
+  if e.toText == "" then none else some e
 
 /-- `repr(chord)` -/
 def chordCode (c : Chord) : Res ChordCode := do
@@ -332,6 +343,7 @@ def evalOp (n : Note) : Op → Res Note
       if b = 0 then .error .zerodiv          -- `frac(a, 0)`
       else .ok { copy n with dur := limitD ((copy n).dur * ((a : Rat) / (b : Rat))) }
   | .addTags ts => .ok { copy n with tags := unionTags (copy n).tags ts }
+  | .setAmp k => .ok { copy n with amp := (k : Rat) }      -- `Note.set_amp(int)`: copy, then the amplitude
 
 def evalOps : Note → List Op → Res Note
   | n, [] => .ok n
@@ -528,22 +540,33 @@ def ItemCode.isPlain : ItemCode → Bool
   | .plain _ => true
   | .custom _ => false
 
-/-- `re.split(r'(?<=\))\s*\+\s*(?=\()', text)` on the items: the text is cut in front of every
-item that starts with `(` — a plain chord — except the first item; custom chords start with their
-tonality (`I.M(`) and stay glued to the piece before them -/
+/-- does the text of the item start with `(`, `I` or `V` (the look-ahead `(?=[(IV])` of the split)?
+A plain chord starts with `(`, a custom chord with the symbol of its tonality -/
+def cutSym (sym : String) : Bool :=
+  match sym.toList with
+  | ch :: _ => ch == 'I' || ch == 'V'
+  | [] => false
+
+def ItemCode.cutBefore : ItemCode → Bool
+  | .plain _ => true
+  | .custom c => cutSym c.ton.sym
+
+/-- `re.split(r'(?<=\))\s*\+\s*(?=[(IV])', text)` on the items: the text is cut in front of every
+item whose text starts with `(`, `I` or `V` (every item ends with `)`), except the first item -/
 def pieces : List ItemCode → List (List ItemCode)
   | [] => []
   | x :: rest => go [x] rest
 where
   go (cur : List ItemCode) : List ItemCode → List (List ItemCode)
     | [] => [cur.reverse]
-    | y :: ys => if y.isPlain then cur.reverse :: go [y] ys else go (y :: cur) ys
+    | y :: ys => if y.cutBefore then cur.reverse :: go [y] ys else go (y :: cur) ys
 
 def copyItem : Item → Item
   | .plain c => .plain (copyChord c)
   | .custom c => .custom { c with chord := copyChord c.chord }
 
-/-- what `Score.chords` can hold after `from_str`: chords, or (defect) whole scores -/
+/-- what `Score.chords` can hold after `from_str`: chords, or a whole score when a piece was a sum
+(only for a custom chord whose tonality symbol the look-ahead does not know; never for printed text) -/
 inductive Obj where
   | chord (i : Item)
   | score (l : List Item)
